@@ -20,7 +20,7 @@ pub const C09: PropDef = PropDef {
     id: "C09",
     run: run_c09,
     oracle: oracle_c09,
-    rule: "cases = (a) conformant V9 histories (C04's generator) in a strict mode that uses only losslessly re-exportable value kinds (unsigned 1/2/3/4/8/16, IPv4, IPv6, octet arrays, unknown fields, valid UTF-8 strings, protocol numbers with a named variant) and in a wide mode with every kind; (b) hostile histories of C01/C02 that still yield V9 elements. Oracle: for every V9 element, to_be_bytes() must be Ok and equal the element's input span (span from the C02 decomposition). Attribution for wide/hostile cases: the export is predicted from the input bytes flowset by flowset and field by field (widths of the template cached at that moment); for value kinds named by an open finding (Duration, MAC, non-UTF-8 string, protocol number without variant) the prediction is the exact lossy form the finding describes (4-byte whole seconds, 17-character text, lossy UTF-8 conversion, 255), computed from the input bytes; the export must equal the prediction exactly. Strict cases must hit no finding at all. non-trivial = the element has >= 1 data flowset with >= 1 record; distinct by digest.",
+    rule: "cases = (a) conformant V9 histories (C04's generator) in a strict mode that uses only losslessly re-exportable value kinds (unsigned 1/2/3/4/8/16, IPv4, IPv6, octet arrays, unknown fields, valid UTF-8 strings, protocol numbers with a named variant) and in a wide mode with every kind; (b) hostile histories of C01/C02 that still yield V9 elements. Oracle: for every V9 element, to_be_bytes() must be Ok and equal the element's input span (span from the C02 decomposition). Attribution for wide/hostile cases: the export is predicted from the input bytes flowset by flowset and field by field (widths of the template cached at that moment); for value kinds named by an open finding (Duration, MAC, non-UTF-8 string, protocol number without variant) the prediction is the exact lossy form the finding describes (4-byte whole seconds, 17-character text, lossy UTF-8 conversion, 255), computed from the input bytes; the export must equal the prediction exactly. Strict cases must hit no finding at all. Every element is exported a second time after the rest of the history has been parsed: same bytes. non-trivial = the element has >= 1 data flowset with >= 1 record; distinct by digest.",
     assumptions: &["spans come from the C02 decomposition", "the template in effect for a data flowset is reconstructed from the template records the library itself reported (and its cache before the call)"],
 };
 
@@ -285,10 +285,27 @@ fn oracle(case: &Case, want: Proto) -> Outcome {
     let mut o = Outcome::pass();
     let n = case.n_parsers();
     let mut parsers: Vec<_> = (0..n).map(|i| obs::new_parser(&case.allowed_of(i))).collect();
+    // every element with what it exported right after its call: exported again at the end of
+    // the history, when the parsers have moved on (an element must not depend on parser state)
+    let mut kept: Vec<(usize, usize, NetflowPacket, String)> = vec![];
+    let export_of = |el: &NetflowPacket| -> Option<String> {
+        match el {
+            NetflowPacket::V9(p) => Some(format!("{:?}", p.to_be_bytes().map_err(|e| e.to_string()))),
+            NetflowPacket::IPFix(m) => Some(format!("{:?}", m.to_be_bytes().map_err(|e| e.to_string()))),
+            _ => None,
+        }
+    };
     for (ci, c) in case.calls.iter().enumerate() {
         let buf = c.buf();
         let mut shadow = shadow_from_lib(&parsers[c.parser]);
         let res = parsers[c.parser].parse_bytes(&buf);
+        if ci + 1 < case.calls.len() && kept.len() < 64 {
+            for (i, el) in res.iter().enumerate() {
+                if let Some(x) = export_of(el) {
+                    kept.push((ci, i, el.clone(), x));
+                }
+            }
+        }
         let allowed: HashSet<u16> = case.allowed_of(c.parser).into_iter().collect();
         let spans = match decompose(&buf, &allowed, &res) {
             Ok((s, _)) => s,
@@ -376,6 +393,15 @@ fn oracle(case: &Case, want: Proto) -> Outcome {
                 }
             }
         }
+    }
+    for (ci, i, el, first) in &kept {
+        if export_of(el).as_ref() != Some(first) {
+            return Outcome::violation(format!(
+                "call {} element {}: to_be_bytes gives a different result after later calls than right after its own call",
+                ci, i
+            ));
+        }
+        o.label("export-repeated-after-later-calls");
     }
     if strict && !o.known.is_empty() {
         return Outcome::violation(format!(
